@@ -669,6 +669,7 @@ package table
 //@   maypanic
 //@   results resp, err
 //@   requires t != nil && t.nh != nil && req != nil
+//@   ensures [C09.range.req] len(req.Key) <= 1024 && len(req.RangeEnd) <= 1024 ==> typeIs(t.nh.lastReq, *regattapb.RequestOp_Range) && asType(t.nh.lastReq, *regattapb.RequestOp_Range) != nil && sameSlice(asType(t.nh.lastReq, *regattapb.RequestOp_Range).Key, req.Key) && sameSlice(asType(t.nh.lastReq, *regattapb.RequestOp_Range).RangeEnd, req.RangeEnd) && asType(t.nh.lastReq, *regattapb.RequestOp_Range).Limit == req.Limit && asType(t.nh.lastReq, *regattapb.RequestOp_Range).KeysOnly == req.KeysOnly && asType(t.nh.lastReq, *regattapb.RequestOp_Range).CountOnly == req.CountOnly
 //@   ensures [C10.range.path] len(req.Key) <= 1024 && len(req.RangeEnd) <= 1024 ==> (req.Linearizable ==> t.nh.nsync == old(t.nh.nsync) + 1 && t.nh.nstale == old(t.nh.nstale)) && (!req.Linearizable ==> t.nh.nstale == old(t.nh.nstale) + 1 && t.nh.nsync == old(t.nh.nsync))
 //@   ensures [C16.range.limits] len(req.Key) > 1024 || len(req.RangeEnd) > 1024 ==> err == serrors.ErrKeyLengthExceeded && t.nh.nsync == old(t.nh.nsync) && t.nh.nstale == old(t.nh.nstale)
 //@   modifies t.nh.nsync, t.nh.nstale, t.nh.lastReq
@@ -677,5 +678,6 @@ package table
 //@   results s, err
 //@   requires t != nil && t.nh != nil && req != nil
 //@   ensures [C16.iter.limits] len(req.Key) > 1024 || len(req.RangeEnd) > 1024 ==> err == serrors.ErrKeyLengthExceeded && t.nh.nsync == old(t.nh.nsync) && t.nh.nstale == old(t.nh.nstale)      // the streamed read refuses what the unary read refuses
+//@   ensures [C09.iter.req] len(req.Key) <= 1024 && len(req.RangeEnd) <= 1024 ==> typeIs(t.nh.lastReq, fsm.IteratorRequest) && asType(t.nh.lastReq, fsm.IteratorRequest).RangeOp != nil && sameSlice(asType(t.nh.lastReq, fsm.IteratorRequest).RangeOp.Key, req.Key) && sameSlice(asType(t.nh.lastReq, fsm.IteratorRequest).RangeOp.RangeEnd, req.RangeEnd) && asType(t.nh.lastReq, fsm.IteratorRequest).RangeOp.Limit == req.Limit && asType(t.nh.lastReq, fsm.IteratorRequest).RangeOp.KeysOnly == req.KeysOnly && asType(t.nh.lastReq, fsm.IteratorRequest).RangeOp.CountOnly == req.CountOnly      // the streamed read asks the state machine for exactly what the caller asked
 //@   ensures [C10.iter.path] len(req.Key) <= 1024 && len(req.RangeEnd) <= 1024 ==> (req.Linearizable ==> t.nh.nsync == old(t.nh.nsync) + 1 && t.nh.nstale == old(t.nh.nstale)) && (!req.Linearizable ==> t.nh.nstale == old(t.nh.nstale) + 1 && t.nh.nsync == old(t.nh.nsync))
 //@   modifies t.nh.nsync, t.nh.nstale, t.nh.lastReq
